@@ -159,3 +159,134 @@ impl<const N: usize> core::ops::Index<core::ops::RangeTo<usize>> for FixedString
         &self.as_str()[r]
     }
 }
+
+// ---- more of the Vec API (sorting, draining, collecting) -------------------------------------------
+impl<T, const N: usize> FromIterator<T> for FixedVec<T, N> {
+    fn from_iter<I: IntoIterator<Item = T>>(it: I) -> Self {
+        let mut v = Self::new();
+        for x in it {
+            v.push(x);
+        }
+        v
+    }
+}
+impl<T, const N: usize> FixedVec<T, N> {
+    pub fn last(&self) -> Option<&T> {
+        if self.len == 0 {
+            None
+        } else {
+            self.items[self.len - 1].as_ref()
+        }
+    }
+    pub fn pop(&mut self) -> Option<T> {
+        if self.len == 0 {
+            None
+        } else {
+            self.len -= 1;
+            self.items[self.len].take()
+        }
+    }
+    pub fn reverse(&mut self) {
+        let mut i = 0;
+        while i < N / 2 + 1 {
+            if i < self.len / 2 {
+                self.items.swap(i, self.len - 1 - i);
+            }
+            i += 1;
+        }
+    }
+    /// stable insertion sort
+    pub fn sort_by_key<K: Ord, F: FnMut(&T) -> K>(&mut self, mut f: F) {
+        let mut i = 1;
+        while i < N {
+            if i < self.len {
+                let mut j = i;
+                while j > 0 && f(self.items[j - 1].as_ref().unwrap()) > f(self.items[j].as_ref().unwrap()) {
+                    self.items.swap(j - 1, j);
+                    j -= 1;
+                }
+            }
+            i += 1;
+        }
+    }
+    /// `drain(..)`: yields every element and leaves the vector empty
+    pub fn drain(&mut self, _r: core::ops::RangeFull) -> FixedIntoIter<T, N> {
+        let taken = core::mem::replace(self, Self::new());
+        taken.into_iter()
+    }
+    pub fn iter(&self) -> impl Iterator<Item = &T> + '_ {
+        self.items.iter().take(self.len).map(|x| x.as_ref().unwrap())
+    }
+}
+
+/// Byte buffer with one layout for both `String` and `Vec<u8>` roles (manifest.rs casts
+/// `&mut String` to `&mut Vec<u8>`).
+#[derive(Debug, Clone, Copy)]
+pub struct ByteBuf<T, const N: usize> {
+    pub b: [T; N],
+    pub n: usize,
+}
+impl<const N: usize> ByteBuf<u8, N> {
+    pub fn new() -> Self {
+        ByteBuf { b: [0; N], n: 0 }
+    }
+    pub fn reserve(&mut self, _n: usize) {}
+    pub fn push(&mut self, c: u8) {
+        assert!(self.n < N, "harness: ByteBuf capacity exceeded");
+        self.b[self.n] = c;
+        self.n += 1;
+    }
+    pub fn extend_from_slice(&mut self, s: &[u8]) {
+        assert!(self.n + s.len() <= N, "harness: ByteBuf capacity exceeded");
+        let mut i = 0;
+        while i < s.len() {
+            self.b[self.n + i] = s[i];
+            i += 1;
+        }
+        self.n += s.len();
+    }
+    pub fn as_bytes(&self) -> &[u8] {
+        &self.b[..self.n]
+    }
+    pub fn len(&self) -> usize {
+        self.n
+    }
+}
+
+impl<T, const N: usize> FixedVec<T, N> {
+    pub fn insert(&mut self, at: usize, v: T) {
+        assert!(self.len < N, "harness: FixedVec capacity exceeded");
+        assert!(at <= self.len, "insertion index out of bounds");
+        let mut i = N - 1;
+        while i > 0 {
+            if i <= self.len && i > at {
+                self.items.swap(i, i - 1);
+            }
+            i -= 1;
+        }
+        self.items[at] = Some(v);
+        self.len += 1;
+    }
+    pub fn sort_unstable(&mut self)
+    where
+        T: Ord,
+    {
+        let mut i = 1;
+        while i < N {
+            if i < self.len {
+                let mut j = i;
+                while j > 0 && self.items[j - 1].as_ref().unwrap() > self.items[j].as_ref().unwrap() {
+                    self.items.swap(j - 1, j);
+                    j -= 1;
+                }
+            }
+            i += 1;
+        }
+    }
+}
+
+impl<const N: usize> ByteBuf<u8, N> {
+    pub fn push_str(&mut self, s: &str) {
+        self.extend_from_slice(s.as_bytes());
+    }
+}
